@@ -97,26 +97,29 @@ fn check_word(ctx: &mut Ctx, idx: u64, id: u16, w: u16) {
         }
     }
     check_peeks(ctx, idx, id, w, [0; 4]);
-    // a parsed packet is then edited: opcode_mut / rcode_mut / set_flags / remove_flags must change only their own bits
+    // a parsed packet is then edited: opcode_mut / rcode_mut / set_flags / remove_flags / set_id must change only their own bits
     if !z {
         let new_op = NAMED_OPCODES[((w >> 3) % 5) as usize];
         let new_rc = NAMED_RCODES_LOW[(w % 11) as usize];
         let add = FLAG_MASK & (w.rotate_left(5) ^ 0x5A5A);
         let del = FLAG_MASK & (w.rotate_left(9) ^ 0x3C3C);
+        let new_id = id ^ w.rotate_left(3) ^ 0x0F0F;
         let r = monitor::guard(|| {
             Packet::parse(&b).ok().and_then(|mut p| {
                 *p.opcode_mut() = bridge::lib_opcode(new_op).unwrap();
                 *p.rcode_mut() = bridge::lib_rcode(new_rc).unwrap();
                 p.set_flags(bridge::lib_flags(add));
                 p.remove_flags(bridge::lib_flags(del));
-                p.build_bytes_vec().ok().map(|o| (u16::from_be_bytes([o[2], o[3]]), bridge::obs_flags(&p), bridge::obs_opcode(p.opcode()), bridge::obs_rcode(p.rcode())))
+                p.set_id(new_id);
+                p.build_bytes_vec().ok().filter(|o| o.len() == 12 && o[0..2] == new_id.to_be_bytes() && p.id() == new_id && o[4..12] == [0u8; 8])
+                    .map(|o| (u16::from_be_bytes([o[2], o[3]]), bridge::obs_flags(&p), bridge::obs_opcode(p.opcode()), bridge::obs_rcode(p.rcode())))
             })
         });
         let want_flags = ((w & FLAG_MASK) | add) & !del;
         let want_word = want_flags | (new_op << 11) | new_rc;
         match r {
             Err(pn) => ctx.panic_violation("editing a parsed header", &pn, case()),
-            Ok(None) => ctx.violation("edit-parsed-header", "edit-parsed-header-failed", "parse or build failed".into(), case()),
+            Ok(None) => ctx.violation("edit-parsed-header", "edit-parsed-header-failed", format!("parse or build failed, or set_id({:#06x}) is not what the header carries", new_id), case()),
             Ok(Some((word, f, o, rc))) => {
                 if word != want_word || f != want_flags || o != new_op || rc != new_rc {
                     ctx.violation("edit-parsed-header", "edited-parsed-header-differs",
